@@ -41,10 +41,19 @@ Definition times (j : journal) : list Z := map e_time j.
 
 (* ------------------------------------------------------------------ bounds *)
 
-(* datetimel_to_realtime_timestamp: `datetime.timestamp_micros() as u64`
-   (i64 -> u64 cast wraps modulo 2^64; a bound before 1970 becomes huge) *)
+(* `i64 as u64` wraps modulo 2^64 *)
 Definition u64_of_i64 (z : Z) : Z := (z mod 18446744073709551616)%Z.
-Definition bound_us (b : option Z) : option Z := option_map u64_of_i64 b.
+(* datetimel_to_realtime_timestamp: `datetime.timestamp_micros().max(0) as u64`
+   (a bound before 1970 is clamped to 0) *)
+Definition realtime_of_i64 (z : Z) : Z := u64_of_i64 (Z.max 0 z).
+Definition bound_us (b : option Z) : option Z := option_map realtime_of_i64 b.
+(* the conversion before the repair: `timestamp_micros() as u64`, a bound before
+   1970 wrapped to a huge value *)
+Definition bound_us_wrapping (b : option Z) : option Z := option_map u64_of_i64 b.
+
+(* a journal entry's realtime is a valid realtime (libsystemd VALID_REALTIME: 0 < t < 2^55);
+   only 0 < t is needed *)
+Definition valid_realtimes (j : list Z) : Prop := forall t, In t j -> (0 < t)%Z.
 
 (* em_after_or_before(em, filter) == OccursAtOrAfter  (the stop test before the repair) *)
 Definition stop_at_or_after (t : Z) (b : option Z) : bool :=
@@ -79,6 +88,9 @@ Section Reader.
   (* exec_journalprocessor: the entries handed to the printer, for CLI bounds A B *)
   Definition journal_run (stop : Z -> option Z -> bool) (A B : option Z) (j : journal) : list entry :=
     next_loop stop (bound_us B) (analyze j (bound_us A)).
+  (* the same with the bound conversion before the repair (regression lemma only) *)
+  Definition journal_run_wrapping (stop : Z -> option Z -> bool) (A B : option Z) (j : journal) : list entry :=
+    next_loop stop (bound_us_wrapping B) (analyze j (bound_us_wrapping A)).
 End Reader.
 
 (* contract J1 of the oracle *)
